@@ -5,7 +5,7 @@ from .C01 import damage_content
 
 BOUNDS = {"stored_data": "any length for unchecked extraction and whole reads; checked extraction bounded by 3 verification reads per file "
                          "(copy/reflink <= 3 KiB, hard_link <= 24 KiB; quick tier: 2 reads)",
-          "destination": "absent or an existing file of arbitrary content",
+          "destination": "absent, an existing file of arbitrary content, or the product of an earlier extraction of the same entry (a hard link to the content file)",
           "content_state": "pristine, replaced by an arbitrary different byte string, or missing; key present or never written",
           "filesystems": "with and without reflink (FICLONE) support",
           "outside": "destinations on other filesystems (EXDEV), directories as destinations"}
@@ -38,7 +38,14 @@ def extraction(ctx, op, state, dest_exists, api, quick=False):
         damage_content(ctx, scn, sri, D, "remove")
     dest = ROOT + "/out"
     G = None
-    if dest_exists:
+    if dest_exists == "self":
+        # the destination is the product of an earlier, successful extraction of the same entry
+        # (for hard links: the very same inode as the content file)
+        first = scn.extract(op, dest, sri=sri) if by_hash else scn.extract(op, dest, key="k")
+        if first.kind != "ok":
+            return
+        tag = tag.replace(":dest-exists", ":dest-is-earlier-extraction")
+    elif dest_exists:
         G = scn.blob("G")
         scn.fs_write(dest, scn.whole(G))
     key = "k" if state != "missing-key" else "never-written"
@@ -59,6 +66,9 @@ def extraction(ctx, op, state, dest_exists, api, quick=False):
         ctx.expect(good, tag + ":errclass", what + ": missing content must yield an I/O error",
                    native={"kind": "err_variant", "step": xstep, "variants": ["IoError"]})
         return
+    if state == "pristine":
+        # whatever the extraction returned, the stored entry itself is untouched
+        expect_bytes(ctx, scn.read_hash(sri), data, tag + ":store-intact", what + ": the stored content afterwards")
     if out.kind == "ok":
         expected = data if (state != "damaged" or checked) else scn.whole(F)
         if rd.kind != "ok":
@@ -86,7 +96,7 @@ def extraction(ctx, op, state, dest_exists, api, quick=False):
             holds_f = sb.content_eq(as_sbytes(rd.value), scn.whole(F), ctx.w)
             pre_existing = False
             if dest_exists:
-                pre_existing = sb.content_eq(scn.whole(G), scn.whole(F), ctx.w)
+                pre_existing = sb.content_eq(scn.whole(G), scn.whole(F), ctx.w) if G is not None else False
             bad = ctx.scn.s.I._band(holds_f, ctx.scn.s.I._bnot(pre_existing))
             ctx.expect(ctx.scn.s.I._bnot(bad), tag + ":left-behind", what + ": verification failed but the unverified bytes were left at the destination",
                        native=lambda cz: {"kind": "not", "of": nat_bytes(cz, rstep, scn.whole(F))})
@@ -109,4 +119,6 @@ def tasks(tier, flavours):
                     if tier == "quick" and dest_exists and fl != "sync" and not op.startswith("copy"):
                         continue
                     out.append(dict(module="C18", family="extraction", flavour=fl, params=dict(op=op, state=state, dest_exists=dest_exists, api=api, quick=(tier == "quick"))))
+            if not (tier == "quick" and fl != "sync" and not op.startswith("hard_link")):
+                out.append(dict(module="C18", family="extraction", flavour=fl, params=dict(op=op, state="pristine", dest_exists="self", api=api, quick=(tier == "quick"))))
     return out
